@@ -3,6 +3,7 @@ History + executable reference model: well-formed histories from vlib/history.py
 line shown must equal the line the ground truth predicts (type@id+letters of target, object and new-id arguments,
 delete_id subject), Connection.messages() must record the same incarnations, the object table must have the model's
 shape, and structural invariants are asserted on ConnectionImpl.db after every message."""
+import re
 from .. import wlxml, streams, objcheck, env, contracts
 
 PROPERTY = 'C02'
@@ -62,9 +63,45 @@ def runner_hash(x):
     return h64([e['line'] for e in x['entries']] if isinstance(x, dict) else x)
 
 
+def other_interpreter_settings(ctx, rng, cands):
+    """attribution does not depend on how the interpreter was started: the same history through `main.py -l` in fresh
+    processes under PYTHONOPTIMIZE (asserts compiled away) / -X dev / a different hash seed shows the lines this process shows"""
+    import os
+    import subprocess
+    import tempfile
+    from ..session import Session
+    from .. import outline
+    st = streams.build(rng, cands, k=2, n_each=(30, 80), tagged=True, opts={'hot': 0.3})
+    lines = [e['line'] for e in st['entries']]
+    s = Session()
+    s.feed([l + '\n' for l in lines])
+    ref = [outline.strip_sgr(p) for k, p in s.events if k == 'out']
+    d = tempfile.mkdtemp(prefix='verif-c02-')
+    try:
+        fn = os.path.join(d, 'h.log')
+        with open(fn, 'w', encoding='utf-8') as f:
+            f.write('\n'.join(lines) + '\n')
+        for extra in ({'PYTHONOPTIMIZE': '1'}, {'PYTHONOPTIMIZE': '2'}, {'PYTHONHASHSEED': str(rng.randint(1, 10 ** 6))}):
+            e2 = dict({k: v for k, v in os.environ.items() if k not in ('PYTHONHASHSEED', 'PYTHONDONTWRITEBYTECODE')}, LC_ALL='C.UTF-8', PYTHONDONTWRITEBYTECODE='1', **extra)
+            r = subprocess.run(['/venv/bin/python', os.path.join(env.REPO, 'main.py'), '-C', '-l', fn], input=b'quit\n', stdout=subprocess.PIPE, stderr=subprocess.PIPE, timeout=300, env=e2)
+            got = [re.sub(r'^wl debug \$ ', '', l) for l in r.stdout.decode('utf-8', 'replace').split('\n') if l and l != 'wl debug $ ']
+            ctx.ev()
+            ctx.count('processes_under_other_interpreter_settings')
+            if got != ref:
+                j = next((j for j in range(min(len(got), len(ref))) if got[j] != ref[j]), min(len(got), len(ref)))
+                ctx.violation('attribution', 'under %r `main.py -l` shows %r where this process shows %r (exit %d)' % (extra, got[j:j + 1], ref[j:j + 1], r.returncode),
+                              dict(objcheck.case_of(st), interpreter_env=extra))
+                return
+    finally:
+        import shutil
+        shutil.rmtree(d, ignore_errors=True)
+
+
 def run(ctx, spec):
     env.setup()
     cands = wlxml.shipped(env.REPO)
+    if spec.get('shard') == 2:
+        other_interpreter_settings(ctx, ctx.rng, cands)
     if spec.get('shard') == 1:
         # the object table driven directly: 70 000 incarnations of one id (quick), 1 100 000 (thorough)
         objcheck.deep_table(ctx, 70000 if ctx.tier == 'quick' else 1100000)
